@@ -216,7 +216,7 @@ pub fn record_step(cpu: &mut Z80, bus: &mut RecBus, out: &mut Out, tag: &str) {
 
 const PAGES: [&str; 7] = ["", "CB", "ED", "DD", "FD", "DDCB", "FDCB"];
 
-fn place_instruction(bus: &mut RecBus, r: &mut Rng, pc: u16, page: usize, op: u8) {
+fn place_instruction(bus: &mut RecBus, r: &mut Rng, pc: u16, page: usize, op: u8, round: u64) {
     let mut bytes: Vec<u8> = vec![];
     match page {
         0 => bytes.push(op),
@@ -227,10 +227,17 @@ fn place_instruction(bus: &mut RecBus, r: &mut Rng, pc: u16, page: usize, op: u8
         5 => bytes.extend([0xDD, 0xCB, r.byte_b(), op]),
         _ => bytes.extend([0xFD, 0xCB, r.byte_b(), op]),
     }
-    // operand bytes: boundary-biased half of the time, otherwise whatever the base function gives
-    if r.chance(1, 2) && page < 5 {
-        bytes.push(r.byte_b());
-        bytes.push(r.byte_b());
+    // operand bytes: the first four rounds walk through the boundary values of the first operand byte
+    // (n = 0x00 / 0xFF / 0x7F / 0x80: carries out of the low byte, displacement signs) for every encoding;
+    // later rounds are boundary-biased half of the time, otherwise whatever the base function gives
+    if page < 5 {
+        if round < 4 {
+            bytes.push([0x00u8, 0xFF, 0x7F, 0x80][round as usize]);
+            bytes.push(if round % 2 == 0 { r.byte_b() } else { [0xFFu8, 0x00, 0x3F][(round / 2) as usize % 3] });
+        } else if r.chance(1, 2) {
+            bytes.push(r.byte_b());
+            bytes.push(r.byte_b());
+        }
     }
     for (k, b) in bytes.iter().enumerate() {
         bus.mem.insert(pc.wrapping_add(k as u16), *b);
@@ -339,10 +346,20 @@ pub fn run(args: &Args) {
                 // prefixes are not opcodes of the main page / the DD,FD pages; prefix chains are
                 // generated below as their own cases
                 let mut cpu = Z80::default();
-                let init = CpuInit::random(&mut r);
+                let mut init = CpuInit::random(&mut r);
+                // counters that select a timing / termination variant (B, BC = 1, 2; A = (HL)) are hit on purpose
+                match round % 4 {
+                    1 => init.bc = 0x0001,
+                    2 => init.bc = 0x0002,
+                    3 => init.bc = 0x0100 | (init.bc & 0xFF),
+                    _ => {}
+                }
                 init.apply(&mut cpu);
                 let mut bus = RecBus::new(r.below(1 << 20) as u32);
-                place_instruction(&mut bus, &mut r, init.pc, page, op);
+                place_instruction(&mut bus, &mut r, init.pc, page, op, round);
+                if round % 4 == 2 && !bus.mem.contains_key(&init.hl) {
+                    bus.mem.insert(init.hl, (init.af >> 8) as u8);
+                }
                 // operand cells with boundary values
                 if r.chance(1, 2) {
                     for a in [init.hl, init.bc, init.de, init.sp, init.sp.wrapping_add(1)] {
